@@ -67,6 +67,8 @@ pub fn main(args: &Args) -> i32 {
                 scalars.extend([0x1F600, 0x10FFFF, 0x10FFFD, 0x100000, 0xFFFFF, 0x20000, 0x2A6D6]);
             }
             let mut buf = [0u8; 4];
+            let mut mappables: Vec<(char, [u8; 4], u8)> = Vec::new();
+            let mut last_unmappable: Option<char> = None;
             for u in scalars {
                 let ch = match char::from_u32(u) {
                     Some(c) => c,
@@ -92,6 +94,9 @@ pub fn main(args: &Args) -> i32 {
                 let mappable = refb != b"?" || ch == '?';
                 if mappable {
                     let w = refb.len().min(4);
+                    let mut b4 = [0u8; 4];
+                    b4[..w].copy_from_slice(&refb[..w]);
+                    mappables.push((ch, b4, w as u8));
                     if reps[w].is_none() && u > 0x20 {
                         reps[w] = Some(ch);
                     }
@@ -103,10 +108,43 @@ pub fn main(args: &Args) -> i32 {
                         }
                         Err(_) => emit(json!({"k":"panic","page":id,"what":"decode","ch":u})),
                     }
-                } else if reps[0].is_none() {
-                    reps[0] = Some(ch);
+                } else {
+                    if reps[0].is_none() {
+                        reps[0] = Some(ch);
+                    }
+                    if u < 0xE000 {
+                        last_unmappable = Some(ch);
+                    }
                 }
             }
+            // 2b. the concatenation law in context: EVERY representable character directly after and directly
+            //     before an unrepresentable one (the first and the last the sweep met) and next to a
+            //     representable one of another width: encode(x y) = encode(x) encode(y)
+            let mut ctx: Vec<(char, Vec<u8>)> = Vec::new();
+            for u in [reps[0], last_unmappable].iter().flatten() {
+                ctx.push((*u, b"?".to_vec()));
+            }
+            if let Some(m) = reps[2].or(reps[1]) {
+                ctx.push((m, ref_encode(idl, &m.to_string()).unwrap()));
+            }
+            for (ch, b4, w) in mappables.iter() {
+                let mb = &b4[..*w as usize];
+                for (x, xb) in ctx.iter() {
+                    for order in 0..2 {
+                        let (s, want): (String, Vec<u8>) = if order == 0 { ([*x, *ch].iter().collect(), [&xb[..], mb].concat()) } else { ([*ch, *x, *ch].iter().collect(), [mb, &xb[..], mb].concat()) };
+                        ne += 1;
+                        match catch_unwind(AssertUnwindSafe(|| p.encode(&s))) {
+                            Ok(got) => {
+                                if got != want {
+                                    emit(json!({"k":"enc","page":id,"ch":*ch as u32,"after":*x as u32,"order":order,"lib":got,"ref":want}));
+                                }
+                            }
+                            Err(_) => emit(json!({"k":"panic","page":id,"what":"encode pair","ch":*ch as u32})),
+                        }
+                    }
+                }
+            }
+            drop(mappables);
             // 3. decoding accepts any bytes: all 1- and 2-byte sequences (+ BOM-like prefixes)
             let mut seqs: Vec<Vec<u8>> = (0..=255u8).map(|b| vec![b]).collect();
             for a in 0..=255u8 {
